@@ -18,6 +18,7 @@ type Val struct {
 	T     types.Type
 	Ctor  string
 	Parts []*Val
+	Tag   string // for pointer values: partition of the designated leaf cell ("" = unknown / stand-alone)
 }
 
 func (v *Val) E() string {
@@ -216,11 +217,26 @@ type Universe struct {
 	boxes    map[string]bool
 	nfresh   int
 	genConsts map[string]bool
+	epochs    map[int]epochRel
+	accessed  map[string]bool
+}
+
+// epochRel: how the components of an epoch relate to those of its parent epoch (nothing known when regions is nil)
+type epochRel struct {
+	parent   int
+	regions  []string
+	allocPre string
+	merge    []epochEdge // a control-flow merge: under cond the components equal those of epoch
+}
+
+type epochEdge struct {
+	cond  string
+	epoch int
 }
 
 func newUniverse() *Universe {
 	u := &Universe{declSet: map[string]bool{}, structs: map[string]*types.Struct{}, anon: map[string]string{},
-		typeIDs: map[string]int{}, faTags: map[string]int{}, compSort: map[string]string{}, mapKinds: map[string][2]string{}, boxes: map[string]bool{}, genConsts: map[string]bool{}}
+		typeIDs: map[string]int{}, faTags: map[string]int{}, compSort: map[string]string{}, mapKinds: map[string][2]string{}, boxes: map[string]bool{}, genConsts: map[string]bool{}, epochs: map[int]epochRel{}, accessed: map[string]bool{}}
 	u.decl("Slice", "(declare-datatypes ((Slice 0)) (((mk_slice (sl_arr Int) (sl_off Int) (sl_len Int) (sl_cap Int)))))")
 	u.decl("Iface", "(declare-datatypes ((Iface 0)) (((mk_iface (if_t Int) (if_v Int)))))")
 	u.decl("ftag", "(declare-fun ftag (Int) Int)")
@@ -544,17 +560,70 @@ var baseCompSort = map[string]string{
 	"GCnt":  "(Array Int (Array String Int))", "GLast": "(Array Int (Array String Iface))",
 }
 
+func kindOfComp(name string) string {
+	if i := strings.Index(name, "$"); i >= 0 {
+		return name[:i]
+	}
+	return name
+}
+
 func (u *Universe) comp(name string) string {
 	if _, ok := u.compSort[name]; !ok {
-		s, ok := baseCompSort[name]
+		s, ok := baseCompSort[kindOfComp(name)]
 		if !ok {
 			panic("unknown comp " + name)
 		}
 		u.compSort[name] = s
 		u.comps = append(u.comps, name)
-		u.declConst(name+"_0", s)
+		u.declCompConst(name, 0)
 	}
 	return name
+}
+
+// declCompConst declares the constant of component `name` for epoch e (0 = function entry) with the
+// well-formedness of the entry heap: cells of allocated objects reference allocated objects.
+func (u *Universe) declCompConst(name string, e int) string {
+	cn := name + "_0"
+	if e > 0 {
+		cn = fmt.Sprintf("%s_e%d", name, e)
+	}
+	key := "const:" + cn
+	if u.declSet[key] {
+		return cn
+	}
+	u.declConst(cn, u.compSort[name])
+	u.genConsts[cn] = false
+	if rel, ok := u.epochs[e]; ok && rel.merge != nil {
+		for _, m := range rel.merge {
+			parent := u.declCompConst(name, m.epoch)
+			u.decls = append(u.decls, fmt.Sprintf("(assert (=> %s (= %s %s)))", m.cond, cn, parent))
+		}
+	} else if ok && rel.regions != nil && strings.Contains(name, "$") {
+		parent := u.declCompConst(name, rel.parent)
+		var in []string
+		for _, r := range rel.regions {
+			in = append(in, eq("(obase a)", "(obase "+r+")"))
+		}
+		u.decls = append(u.decls, fmt.Sprintf("(assert (forall ((a Int)) (! (=> (not %s) (= (select %s a) (select %s a))) :pattern ((select %s a)))))", or(in...), cn, parent, cn))
+	} else if ok && rel.regions != nil {
+		// ghost / map components are not affected by a region write
+		parent := u.declCompConst(name, rel.parent)
+		u.decls = append(u.decls, fmt.Sprintf("(assert (= %s %s))", cn, parent))
+	}
+	if strings.HasPrefix(name, "MD_") {
+		// the nil map has an empty domain in every state
+		ks := u.compSort[name][len("(Array Int ") : len(u.compSort[name])-1]
+		u.decls = append(u.decls, fmt.Sprintf("(assert (= (select %s 0) ((as const %s) false)))", cn, ks))
+	}
+	if e == 0 {
+		switch kindOfComp(name) {
+		case "MPtr":
+			u.decls = append(u.decls, fmt.Sprintf("(assert (forall ((a Int)) (! (=> (< (obase a) ALLOC_0) (and (>= (select %s a) 0) (< (obase (select %s a)) ALLOC_0))) :pattern ((select %s a)))))", cn, cn, cn))
+		case "MSlice":
+			u.decls = append(u.decls, fmt.Sprintf("(assert (forall ((a Int)) (! (=> (< (obase a) ALLOC_0) (let ((s (select %s a))) (and (>= (sl_arr s) 0) (< (obase (sl_arr s)) ALLOC_0) (>= (sl_off s) 0) (>= (sl_len s) 0) (>= (sl_cap s) (sl_len s)) (=> (= (sl_arr s) 0) (= (sl_cap s) 0))))) :pattern ((select %s a)))))", cn, cn))
+		}
+	}
+	return cn
 }
 
 // map components: domain and value arrays per (key sort, value sort)
@@ -578,11 +647,16 @@ func (u *Universe) mapComps(m *types.Map) (dom, val string, ks, vs string) {
 	return
 }
 
-// State maps heap component -> current SMT term (a constant name).
-type State struct{ M map[string]string }
+// State maps heap component -> current SMT term (a constant name).  Components that were not touched
+// since the last "havoc everything" event are named by the epoch of that event (0 = function entry).
+type State struct {
+	M     map[string]string
+	Epoch int
+	sym   map[string]bool // symbolic state used to compile heap-dependent spec functions: records reads
+}
 
 func (s *State) clone() *State {
-	n := &State{M: make(map[string]string, len(s.M))}
+	n := &State{M: make(map[string]string, len(s.M)), Epoch: s.Epoch, sym: s.sym}
 	for k, v := range s.M {
 		n.M[k] = v
 	}
@@ -590,18 +664,27 @@ func (s *State) clone() *State {
 }
 
 func (s *State) get(u *Universe, comp string) string {
+	if s.sym != nil {
+		s.sym[comp] = true
+		u.comp2(comp)
+		return "h!" + comp
+	}
 	u.comp2(comp)
+	u.accessed[comp] = true
 	if v, ok := s.M[comp]; ok {
 		return v
 	}
-	if sort, ok := u.compSort[comp]; ok {
-		u.declConst(comp+"_0", sort)
+	if _, ok := u.compSort[comp]; ok {
+		return u.declCompConst(comp, s.Epoch)
 	}
 	return comp + "_0"
 }
 
 func (u *Universe) comp2(name string) {
 	if _, ok := u.compSort[name]; ok {
+		return
+	}
+	if strings.Contains(name, "IT_") {
 		return
 	}
 	u.comp(name)
@@ -623,23 +706,31 @@ type leaf struct {
 	comp string
 }
 
-func (u *Universe) leaves(t types.Type) []leaf {
+// leaves of a struct type: every leaf lives in the partition (kind $ innermost struct _ field).
+// For a non-struct type the single leaf lives in partition kind$tag ("cell" for stand-alone variables,
+// "elem" for slice / array elements).
+func (u *Universe) leaves(t types.Type) []leaf { return u.leavesTag(t, "cell") }
+
+func (u *Universe) leavesTag(t types.Type, tag string) []leaf {
 	var out []leaf
-	var rec func(t types.Type, path []int)
-	rec = func(t types.Type, path []int) {
+	var rec func(t types.Type, path []int, tag string)
+	rec = func(t types.Type, path []int, tag string) {
 		if st, _ := structOf(t); st != nil {
+			sname := u.sortOf(t)
 			for i := 0; i < st.NumFields(); i++ {
-				rec(st.Field(i).Type(), append(append([]int{}, path...), i))
+				rec(st.Field(i).Type(), append(append([]int{}, path...), i), sname[2:]+"_"+sanitize(st.Field(i).Name()))
 			}
 			return
 		}
-		c := compForSort(u, t)
-		if c == "" {
-			c = "UNSUPPORTED"
+		k := compForSort(u, t)
+		c := "UNSUPPORTED"
+		if k != "" {
+			c = k + "$" + tag
+			u.comp2(c)
 		}
 		out = append(out, leaf{path: path, T: t, comp: c})
 	}
-	rec(t, nil)
+	rec(t, nil, tag)
 	return out
 }
 
